@@ -140,6 +140,22 @@ def generate(rng, depth=2, n_files=14, symlinks=True, outside_links=False, big=F
                 mk = marker("MK", tag, up)
                 t.add_file(up, content(rng, rng.choice([10, 64, 500]), mk))
                 t.markers[mk] = up
+    # extensions spelled in upper / mixed case next to the lower-case spelling (what "its extension" means for them is
+    # not judged, but they must not change what the lower-case files get)
+    for ext in rng.sample(sorted(CORE_TYPES), 2):
+        for spell in (ext.upper(), ext.capitalize()):
+            up = rng.choice(dirs) + "/Case" + str(rng.below(100)) + "." + spell
+            if up not in used:
+                used.add(up)
+                mk = marker("MK", tag, up)
+                t.add_file(up, content(rng, rng.choice([10, 64, 500]), mk))
+                t.markers[mk] = up
+        up = rng.choice(dirs) + "/case" + str(rng.below(100)) + "." + ext
+        if up not in used:
+            used.add(up)
+            mk = marker("MK", tag, up)
+            t.add_file(up, content(rng, 80, mk))
+            t.markers[mk] = up
     # directory indexes and .html fallbacks
     for d in dirs[1:]:
         if rng.chance(2, 3):
